@@ -23,8 +23,19 @@ func Parse(in string) (sections []*Section, err error) {
 	parser.AddErrorListener(errorListener)
 	parser.BuildParseTrees = true
 	tree := parser.Start()
+	if errorListener.ErrorBuilder.Len() != 0 {
+		// Syntax errors: the tree contains error-recovery nodes that the walker's positional
+		// child access does not expect. Report the errors instead of walking it.
+		return nil, fmt.Errorf("%v", errorListener.ErrorBuilder.String())
+	}
 
 	walker := NewWalker(parser)
+	defer func() {
+		// Never crash on malformed input: a walker panic is reported as a parse error.
+		if r := recover(); r != nil {
+			sections, err = nil, fmt.Errorf("failed to parse config: %v", r)
+		}
+	}()
 	antlr.ParseTreeWalkerDefault.Walk(walker, tree)
 	if errorListener.ErrorBuilder.Len() != 0 {
 		return nil, fmt.Errorf("%v", errorListener.ErrorBuilder.String())
